@@ -1023,10 +1023,10 @@ pub fn parsers() -> Vec<Parser> {
         P!("hex_decode_bytes", 80, false, true, p_hex_bytes, seeds_hex),
         P!("hex_decode", 82, false, true, p_hex_str, seeds_hex),
         P!("hex_decode_to_slice", 81, true, true, p_hex_slice, seeds_hex),
-        P!("base64/standard", 0, false, true, p_b64::<0>, seeds_b64::<0>),
-        P!("base64/url_safe", 0, false, true, p_b64::<1>, seeds_b64::<1>),
-        P!("base64/standard_no_pad", 0, false, true, p_b64::<2>, seeds_b64::<2>),
-        P!("base64/url_safe_no_pad", 0, false, true, p_b64::<3>, seeds_b64::<3>),
+        P!("base64/standard", 150, false, true, p_b64::<0>, seeds_b64::<0>),
+        P!("base64/url_safe", 151, false, true, p_b64::<1>, seeds_b64::<1>),
+        P!("base64/standard_no_pad", 152, false, true, p_b64::<2>, seeds_b64::<2>),
+        P!("base64/url_safe_no_pad", 153, false, true, p_b64::<3>, seeds_b64::<3>),
         P!("base64_decode_simd", 0, false, true, p_b64::<4>, seeds_b64::<4>),
         P!("simd_encoding/decode_varint", 0, false, true, p_simd_varint, seeds_simd_varint),
         P!("simd_encoding/decode_varint_batch", 0, true, true, p_simd_varint_batch, seeds_simd_varint_batch),
